@@ -17,6 +17,13 @@ B2/C3 (cache mode, WP-A). B2: per file ONE LineReader and ONE SyslineReader driv
    any difference in an answer, a counter or a panic is a B break.  C3: the same answers vs the spec
    (python transliteration of spec_find_line / spec_find_sysline / syslines, cross-checked with Coq);
    a failing sequence is shrunk before it is reported.
+   Containers: the same bytes as a plain file, .gz / .bz2 / .lz4 (sequential decoder, look-behind drop), .xz (sliced at
+   open) and a tar member (writers of checks/c05.py), the BlockReader's counters included.  On streamed files the
+   judged patterns are those of the theorems: block-zero pattern + stage driver (CRD) / window driver with the linear
+   search (CRW a,b,plan; also files that are not chronological: win_scan) with a drop plan
+   (streamed_driver_complete, streamed_window_driver), drops disabled + any history
+   (streamed_drop_disabled_refines), any history on a tar member (tar_member_refines); other histories on streamed
+   readers are tied to the model only.  C2 also runs dated logs stored as .gz/.bz2/.lz4 through the binary.
 """
 import json, os
 import vlib
@@ -126,6 +133,23 @@ def cache_witness_cases():
     ]
 
 
+def shuffled_messages(rng, f, tab):
+    """the same messages in another order (a log that is NOT chronological); only for files that end with a newline"""
+    if not f.endswith(b"\n"):
+        return f
+    lead, gs = U.py_groups(f, tab)
+    if len(gs) < 2:
+        return f
+    gs = list(gs)
+    for _ in range(rng.choice([1, 1, 2])):
+        i, j = rng.randrange(len(gs)), rng.randrange(len(gs))
+        gs[i], gs[j] = gs[j], gs[i]
+    return b"".join(lead) + b"".join(b"".join(ls) for _, ls in gs)
+
+
+TOTAL_KINDS = ("plain", "tar")
+
+
 def cache_cases(rng, n_files):
     """[(bs, f, table, ops, profile)]"""
     out = []
@@ -141,21 +165,41 @@ def cache_cases(rng, n_files):
                                    maxlen=rng.choice([24, 30, 60]))
         if rng.random() < 0.04:
             f, tab = rng.choice([(b"", {}), (b"\n", {}), (b"a", {}), (b"\n\n\n", {}), (b"ab\n", {})])
-        kind = "plain" if rng.random() < 0.5 else rng.choice(["gz", "bz2", "lz4"])
-        if kind == "plain":
+        kind = "plain" if rng.random() < 0.4 else rng.choice(["gz", "bz2", "lz4", "gz", "bz2", "lz4", "xz", "xz", "tar"])
+        if kind == "xz" and f and rng.random() < 0.45:
+            # the slicing loop of BlockReader::new stores one more, empty, block when the block size divides the size
+            divs = [d_ for d_ in range(1, min(len(f), 70) + 1) if len(f) % d_ == 0]
+            bs = rng.choice(divs)
+        if kind in TOTAL_KINDS and rng.random() < (1.0 if kind == "plain" else 0.5):
+            # every block can be read at any time (a plain file; a tar member: every miss reads all blocks again)
             profile = "wild" if rng.random() < 0.25 else "safe"
             ops = U.cache_ops(rng, f, tab, bs, rng.choice([5, 9, 14, 22, 30]), profile)
-        elif rng.random() < 0.3:
+        elif rng.random() < 0.22:
             # drops disabled first (what SyslogProcessor does before the reverse pass of process_missing_year):
             # then ANY call history must be answered as the spec says (theorem streamed_drop_disabled_refines)
             profile = "stream_nodrop"
             ops = [("CXD", 0)] + [o for o in U.cache_ops(rng, f, tab, bs, rng.choice([5, 9, 14, 22]), "safe")
                                   if o[0] not in ("CDD", "CDS") and not (o[0] == "CRD" and "1" in o[1])]
-        elif rng.random() < 0.6 and f:
+        elif rng.random() < 0.75 and f:
             # the call pattern of the stage driver on a streamed reader: block-zero analysis, then the driver
-            profile = "stream_driver"
-            ops = ([("CSBn",)] * rng.choice([0, 1, 2, 3]) if rng.random() < 0.5 else []) + \
-                  [("CRD", rng.choice(["-", "1", "1", "10", "011"]))]
+            # (theorems streamed_driver_complete / streamed_window_driver), half of them with a datetime window
+            # (linear search), a third of those on a file whose messages are not in time order
+            gate = ([("CLBn",)] * rng.choice([0, 1, 2, 4]) if rng.random() < 0.5 else []) + \
+                   ([("CSBn",)] * rng.choice([0, 1, 2, 3]) if rng.random() < 0.5 else [])
+            plan = rng.choice(["-", "1", "1", "10", "011"])
+            if rng.random() < 0.5 and tab:
+                profile = "stream_window"
+                if rng.random() < 0.35:
+                    f = shuffled_messages(rng, f, tab)
+                ts_ = sorted(set(tab.values()))
+                pick = lambda: rng.choice(ts_) + rng.choice([-1, 0, 0, 0, 1])
+                a_, b_ = rng.choice([None, pick(), pick()]), rng.choice([None, pick(), pick()])
+                if a_ is not None and b_ is not None and b_ < a_ and rng.random() < 0.7:
+                    a_, b_ = b_, a_
+                ops = gate + [("CRW", "%s,%s,%s" % ("-" if a_ is None else a_, "-" if b_ is None else b_, plan))]
+            else:
+                profile = "stream_driver"
+                ops = gate + [("CRD", plan)]
         else:
             # any call history on a streamed reader: tied to the model (a block that is gone gives Done), not judged
             profile = "stream_wild"
@@ -165,7 +209,7 @@ def cache_cases(rng, n_files):
 
 
 def run_cache_mode(ctx, rng, quick, scratch, cdir):
-    cases = cache_cases(rng, 90 if quick else 3000)
+    cases = cache_cases(rng, 120 if quick else 3000)
     wit = cache_witness_cases()
     allc = [(bs, f, tab, ops, "plain") for _, bs, f, tab, ops in wit] + [c[:4] + (c[5],) for c in cases]
     prof = ["wild"] * len(wit) + [c[4] for c in cases]
@@ -200,7 +244,7 @@ def run_cache_mode(ctx, rng, quick, scratch, cdir):
             n_stream_wild += 1
             continue
         wild_from = U.first_wild_sysline_in_block(o, a)
-        mm = U.cache_spec_mismatches(f, t, o, a, wild_from, kind == "plain")
+        mm = U.cache_spec_mismatches(f, t, o, a, wild_from, kind in TOTAL_KINDS)
         panics_doc += sum(1 for x in a if x["kind"] == "PANIC") - sum(1 for _, w in mm if w == "panic")
         if ci < len(wit):
             # the recorded witnesses: the model must predict them (B) and they must still deviate
@@ -211,7 +255,7 @@ def run_cache_mode(ctx, rng, quick, scratch, cdir):
         for (op, x) in zip(o, a):
             if x["kind"] in ("PANIC", "ERR"):
                 continue
-            if kind == "plain" and (op[0] in ("CL", "CLB") and x["res"] is not None or op[0] == "CL"):
+            if kind in TOTAL_KINDS and (op[0] in ("CL", "CLB") and x["res"] is not None or op[0] == "CL"):
                 r = x["res"]
                 coq_l.append((f, op[1], None if r is None else (r[0], r[1], r[2], r[6])))
             elif op[0] == "CS" and (wild_from is None or o.index(op) < wild_from):
@@ -225,7 +269,7 @@ def run_cache_mode(ctx, rng, quick, scratch, cdir):
             sops, sans = U.shrink_cache_case(bs, f, t, o, scratch, wild_from, kind=kind) if fails <= 4 else (o, a)
             if sans is None:
                 sops, sans = o, a
-            mm2 = U.cache_spec_mismatches(f, t, sops, sans, U.first_wild_sysline_in_block(sops, sans), kind == "plain") or mm
+            mm2 = U.cache_spec_mismatches(f, t, sops, sans, U.first_wild_sysline_in_block(sops, sans), kind in TOTAL_KINDS) or mm
             j, what = mm2[0]
             exp = U.py_spec_find_line(f, sops[j][1]) if what == "find_line" else \
                 U.py_spec_find_sysline(f, t, sops[j][1]) if what == "find_sysline" else what
@@ -249,10 +293,11 @@ def run_cache_mode(ctx, rng, quick, scratch, cdir):
                 cache_model_disagreements=len(dis), cache_spec_failures=fails,
                 cache_documented_panics_after_drop=panics_doc, cache_paths=dict(sorted(paths.items())),
                 cache_witnesses_reproduced={k_: bool(v) for k_, v in wit_ok.items()},
-                cache_sequences_with_drops=sum(1 for o in cops if any(x[0] in ("CDD", "CDS") or (x[0] == "CRD" and "1" in x[1]) for x in o)),
+                cache_sequences_with_drops=sum(1 for o in cops if any(x[0] in ("CDD", "CDS") or (x[0] in ("CRD", "CRW") and "1" in x[1].split(",")[-1]) for x in o)),
                 cache_sequences_wild=sum(1 for p_ in prof if p_ == "wild"),
-                cache_containers={k_: sum(1 for c_ in allc if c_[4] == k_) for k_ in ("plain", "gz", "bz2", "lz4")},
+                cache_containers={k_: sum(1 for c_ in allc if c_[4] == k_) for k_ in ("plain", "gz", "bz2", "lz4", "xz", "tar")},
                 cache_streamed_driver_sequences=sum(1 for p_ in prof if p_ == "stream_driver"),
+                cache_streamed_window_driver_sequences=sum(1 for p_ in prof if p_ == "stream_window"),
                 cache_streamed_drops_disabled_sequences=sum(1 for p_ in prof if p_ == "stream_nodrop"),
                 cache_streamed_any_history_sequences_not_judged=n_stream_wild)
 
@@ -369,6 +414,11 @@ def run(ctx):
         files.append((f, tab, note, rng.sample(BIN_BS, 2 if quick else 4) + [None]))
     for f, tab, note, ext in yearless_streamed(rng, 3 if quick else 30):
         files.append((f, tab, note, [64, 128] if quick else [64, 65, 128, 4096, None]))
+    # dated (with year) logs in a streamed container, several blocks long: block-zero analysis, the driver and
+    # drop_data_try on a reader whose look-behind drop is enabled (theorem streamed_driver_complete), end to end
+    for f, tab, note in binary_files(rng, 4 if quick else 60):
+        if len(f) > 2 * 64:
+            files.append((f, tab, "streamed" + rng.choice([".gz", ".bz2", ".lz4"]), [64, 128] if quick else [64, 65, 127, 128, 4096]))
     if not quick:
         for k in range(6):        # around the default block size and the largest one
             f, tab, lines = U.gen_file(rng, 0x10000 if k < 4 else 4096, nmsg=rng.choice([3, 4, 6]), wild=True)
@@ -379,7 +429,7 @@ def run(ctx):
     for fi, (f, tab, note, bss) in enumerate(files):
         if len(f) <= U.consts_from_repo()["FILE_TOO_SMALL_SZ"]:
             continue
-        ext = note[len("yearless"):] if note.startswith("yearless.") else ""
+        ext = note[len("yearless"):] if note.startswith(("yearless.", "streamed.")) else ""
         path = os.path.join(scratch, "b%04d.log%s" % (fi, ext))
         with open(path, "wb") as fh:
             fh.write(U.stored_form(ext[1:], f) if ext else f)
